@@ -51,6 +51,8 @@ class Terms:
         for st in body:
             if isinstance(st, ast.Expr) and isinstance(st.value, ast.Constant):
                 continue
+            if isinstance(st, ast.AnnAssign) and isinstance(st.target, ast.Name) and st.value is not None:
+                st = ast.copy_location(ast.Assign(targets=[st.target], value=st.value), st)
             if isinstance(st, ast.Assign) and len(st.targets) == 1 and isinstance(st.targets[0], ast.Name):
                 nm = st.targets[0].id
                 self.assign[nm] = st.value
@@ -84,6 +86,19 @@ class Terms:
             if isinstance(st, ast.For):
                 sub: Dict[str, List[tuple]] = {}
                 self._walk(st.body, sub)
+                it_node = st.iter
+                if isinstance(it_node, ast.Name) and isinstance(self.assign.get(it_node.id), (ast.List, ast.Tuple)):
+                    it_node = self.assign[it_node.id]
+                # literal list of expressions (e.g. the sections, in order): unroll, substituting the loop variable
+                if isinstance(it_node, (ast.List, ast.Tuple)) and it_node.elts and not all(isinstance(e, ast.Constant) for e in it_node.elts) and isinstance(st.target, ast.Name):
+                    for e in it_node.elts:
+                        for b, items in sub.items():
+                            for it in items:
+                                if len(it) >= 2 and it[1] == st.target.id:
+                                    self._emit(b, (it[0], norm(e)) + tuple(it[2:]), ctx)
+                                else:
+                                    self._emit(b, it, ctx)
+                    continue
                 # literal list of constants: unroll
                 if isinstance(st.iter, (ast.List, ast.Tuple)) and all(isinstance(e, ast.Constant) for e in st.iter.elts) and isinstance(st.target, ast.Name):
                     for e in st.iter.elts:
